@@ -46,6 +46,35 @@ unsafe impl GlobalAlloc for Counting {
 #[global_allocator]
 static GLOBAL: Counting = Counting;
 
+/// Milliseconds since process start at which the current server frame began (0 = none running).
+static FRAME_STARTED_MS: std::sync::atomic::AtomicU64 = std::sync::atomic::AtomicU64::new(0);
+/// A server frame takes microseconds; one that has not returned after this long is CPU exhaustion.
+const FRAME_LIMIT_MS: u64 = 20_000;
+
+fn start_watchdog() {
+    let t0 = std::time::Instant::now();
+    std::thread::spawn(move || {
+        loop {
+            std::thread::sleep(Duration::from_millis(500));
+            let started = FRAME_STARTED_MS.load(Relaxed);
+            let now = t0.elapsed().as_millis() as u64 + 1;
+            if started != 0 && now.saturating_sub(started) > FRAME_LIMIT_MS {
+                eprintln!("watchdog: a server frame processing a hostile message did not return within {FRAME_LIMIT_MS} ms (CPU exhaustion out of proportion to the message)");
+                std::process::abort();
+            }
+        }
+    });
+    CLOCK.with(|c| *c.borrow_mut() = Some(t0));
+}
+
+thread_local! {
+    static CLOCK: std::cell::RefCell<Option<std::time::Instant>> = const { std::cell::RefCell::new(None) };
+}
+
+fn now_ms() -> u64 {
+    CLOCK.with(|c| c.borrow().map(|t| t.elapsed().as_millis() as u64 + 1).unwrap_or(0))
+}
+
 const MAX_SINGLE: usize = 8 << 20;
 const MAX_TOTAL: usize = 32 << 20;
 
@@ -180,7 +209,9 @@ impl World6 {
 
     fn server_update(&mut self, what: &str) -> bool {
         self.frames += 1;
+        FRAME_STARTED_MS.store(now_ms(), Relaxed);
         let r = catch_unwind(AssertUnwindSafe(|| self.server.update()));
+        FRAME_STARTED_MS.store(0, Relaxed);
         if r.is_err() {
             let p = take_panic().unwrap_or_default();
             let p: String = p.lines().take(2).collect::<Vec<_>>().join(" ").chars().take(300).collect();
@@ -620,6 +651,10 @@ fn auth_for(seed: u64) -> AuthMethod {
 fn main() {
     let args = Args::from_env();
     quiet_panics();
+    if !args.flag("--server-only") {
+        // (not under Miri: a frame takes minutes there)
+        start_watchdog();
+    }
     let thorough = args.get("--tier") == Some("thorough");
     if let Some(seed) = args.get("--replay") {
         let seed: u64 = seed.parse().unwrap();
